@@ -4,6 +4,7 @@ CONSTANTS
   URIs <- URIsAll
   OriginShapes <- ShapesO
   DestShapes <- ShapesD
+  Spellings <- SpellingsAll
   Bodies <- BodiesAll
   Styles <- StylesAll
   KeyVals <- KeyValsAll
